@@ -12,7 +12,7 @@ import (
 
 func init() {
 	Register(&Scenario{Prop: "C06", Name: "kv-lww", Run: scenC06, SoftParks: true, Weight: 1,
-		Rule: "1-3 replicas of a key-value store (one operation in ten arms a disk error for the next write of the merged heads on one replica: the merge itself stands, view and log must still agree); 3-14 (thorough 3-40) Put/Delete on 1-5 keys (repeated keys, deletes of absent keys, re-puts, empty and binary values), one operation in five a burst of 2-3 concurrent local writers stepped through the write path or free-running (the client of one of them may give up mid-write: its context is cancelled while it sits between two steps), 0-2 readers (Get of one key, All) run beside the writers of a burst and, one operation in four, beside the merges of the following steps; with replication under the swarm faults, failing fetches / gap-fill and kernel stalls; at every quiescent step each replica's Get/All must equal the last-writer-wins replay of its own log by the independent model, and the log order must respect the causal past recorded by the kernel; non-trivial = >=3 writes and (with several replicas) >=1 replicated entry"})
+		Rule: "1-3 replicas of a key-value store (one operation in ten arms a disk error for the next write of the merged heads on one replica: the merge itself stands, view and log must still agree); 3-14 (thorough 3-40) Put/Delete on 1-5 keys (repeated keys, deletes of absent keys, re-puts, empty and binary values), one operation in five a burst of 2-3 concurrent local writers stepped through the write path or free-running (the client of one of them may give up mid-write: its context is cancelled while it sits between two steps), 0-2 readers (Get of one key, All) run beside the writers of a burst and, one operation in four, beside the merges of the following steps (what All returns must be the view of one state between its call and its return: the replay of the entries the view last agreed with plus any subset of those that came since); with replication under the swarm faults, failing fetches / gap-fill and kernel stalls; at every quiescent step each replica's Get/All must equal the last-writer-wins replay of its own log by the independent model, and the log order must respect the causal past recorded by the kernel; non-trivial = >=3 writes and (with several replicas) >=1 replicated entry"})
 }
 
 var c06Keys = []string{"a", "b", "ключ", "k k", "z/1"}
@@ -65,6 +65,7 @@ func scenC06(k *K) {
 	if Tier == "thorough" {
 		nops = k.C.Range(3, 40)
 	}
+	agreed := map[int]map[string]bool{}
 	check := func(where string) {
 		for i, s := range c.Stores {
 			if s == nil {
@@ -74,12 +75,15 @@ func scenC06(k *K) {
 				continue // a write that has not returned may be in the log and not yet in the view
 			}
 			checkKVReplica(k, i, s.(iface.KeyValueStore), where)
+			agreed[i] = LogHashSet(s)
 		}
 		c.CheckCausalOrder("C06")
 	}
 	k.Invariant = func() { check("step") }
 	overrides := 0
 	c.BurstCancel = k.C.Chance(1, 2)
+	readerBase := map[*Op]map[string]bool{}
+	readerNode := map[*Op]int{}
 	startReaders := func(m, node int) []*Op {
 		var rs []*Op
 		kv, _ := c.Stores[node].(iface.KeyValueStore)
@@ -88,12 +92,15 @@ func scenC06(k *K) {
 		}
 		for r := 0; r < m; r++ {
 			all, key := k.C.Chance(1, 2), c06Keys[k.C.Intn(nkeys)]
-			rs = append(rs, k.Go(node, "read-during-changes", func() (interface{}, error) {
+			op := k.Go(node, "read-during-changes", func() (interface{}, error) {
 				if all {
 					return kv.All(), nil
 				}
 				return kv.Get(context.Background(), key)
-			}))
+			})
+			// the entries the view last agreed with before this reader started
+			readerBase[op], readerNode[op] = agreed[node], node
+			rs = append(rs, op)
 		}
 		return rs
 	}
@@ -109,6 +116,17 @@ func scenC06(k *K) {
 				k.Failf("C06/read-error", "a Get/All that ran while writes or merges were under way failed: %v", r.Err)
 			}
 			k.W.Stat("read-concurrent-with-changes")
+			// All() is one reading of the view: what it gives is the view of one state between
+			// the call and the return
+			if m, isAll := r.Val.(map[string][]byte); isAll && c.Stores[readerNode[r]] != nil {
+				got := map[string]string{}
+				for key, v := range m {
+					got[key] = string(v)
+				}
+				if ok, why := ReadAtSomeState(k, c.Stores[readerNode[r]], readerBase[r], got); !ok {
+					k.Failf("C06/read-matches-no-state", "n%d: All() that ran beside writes or merges returned %s, the view of no state between its call and its return (%s)", readerNode[r], MapStr(got), why)
+				}
+			}
 		}
 	}
 	for i := 0; i < nops; i++ {
